@@ -39,6 +39,8 @@ struct Saved {
 	mempool: Vec<grin_core::core::Transaction>,
 	n_msgs: usize,
 	now_ms: i64,
+	/// the active account is in-memory state of the open wallet
+	active: String,
 }
 
 #[derive(Clone, Debug)]
@@ -159,6 +161,7 @@ impl C20 {
 			mempool: ex.world.chain.node.sh.mempool.lock().unwrap().clone(),
 			n_msgs: ex.msgs.len(),
 			now_ms: crate::hooks::now_ms(),
+			active: ex.world.snap(w).active,
 		}
 	}
 
@@ -169,7 +172,10 @@ impl C20 {
 		*ex.world.chain.node.sh.mempool.lock().unwrap() = s.mempool.clone();
 		ex.msgs.truncate(s.n_msgs);
 		crate::hooks::set_now_ms(s.now_ms);
-		ex.world.open(s.w).map_err(|e| format!("{}", e))
+		ex.world.open(s.w).map_err(|e| format!("{}", e))?;
+		let o = ex.world.owner(s.w);
+		let m = ex.world.mask(s.w);
+		o.set_active_account(m.as_ref(), &s.active).map_err(|e| format!("{}", e))
 	}
 
 	/// build the closure that performs one task through the public API
@@ -542,19 +548,16 @@ impl C20 {
 			match r {
 				Err(e) => {
 					result["violation"] = json!({"sig": if e.starts_with("DEADLOCK") { "deadlock" } else { "task_unbuildable" }, "detail": e, "schedule": []});
-					break;
 				}
 				Ok((outs, choices, gaps, t0y)) => {
 					result["interleavings"] = json!(result["interleavings"].as_u64().unwrap() + 1);
 					result["gap_runs"] = json!(result["gap_runs"].as_u64().unwrap() + gaps);
 					result["t0_sections"] = json!(std::cmp::max(result["t0_sections"].as_u64().unwrap(), t0y as u64));
 					digests.insert(choices.clone());
+					let pr = projection(&ex.world, w, &slate_ids);
 					if outs.iter().any(|o| o.panicked) {
 						result["violation"] = json!({"sig": "ABORT", "detail": "task panicked", "schedule": choices});
-						break;
-					}
-					let pr = projection(&ex.world, w, &slate_ids);
-					if !serial_set.contains(&pr) {
+					} else if !serial_set.contains(&pr) {
 						// closest serial outcome, for the report
 						let best = serial
 							.iter()
@@ -577,9 +580,7 @@ impl C20 {
 							"detail": format!("interleaving {:?} of tasks {:?} ends in a state no serial order produces; closest serial order {:?}: interleaved-only {:?}, serial-only {:?}", choices, tasks.iter().map(|t| t.kind.clone()).collect::<Vec<_>>(), best.0, extra, missing),
 							"schedule": choices,
 						});
-						break;
-					}
-					if let Some((sig, detail)) = Self::completed_effects(ex, w, &tasks, &outs) {
+					} else if let Some((sig, detail)) = Self::completed_effects(ex, w, &tasks, &outs) {
 						// only a violation if no serial order shows the same loss: serial runs
 						// are trusted, so reaching here with a serial-equal state means the
 						// effect can also be lost serially (e.g. refresh legitimately confirms)
@@ -592,6 +593,9 @@ impl C20 {
 			}
 			if let Err(e) = Self::restore(ex, &saved) {
 				return OpRes::Err(format!("HARNESS restore: {}", e));
+			}
+			if !result["violation"].is_null() {
+				break;
 			}
 		}
 		result["distinct_schedules"] = json!(digests.len());
